@@ -81,7 +81,8 @@ func (t *Tree) setBlock(name string, body *BlockNode) {
 }
 
 func (t *Tree) enrichError(err error) error {
-	if err, ok := err.(ParsingError); ok {
+	// (no error type can implement ParsingError: they embed a field named Pos)
+	if err, ok := err.(interface{ setTree(t *Tree) }); ok {
 		err.setTree(t)
 	}
 	return err
